@@ -189,7 +189,9 @@ std::map<std::string, std::string> parse_kv(const std::string & d0c)
 struct SignalFault { i64 at_point = 0; int signo = 0; i64 delivered = 0, default_disposition = 0; };
 SignalFault g_sigfault;
 
-struct RunResult { int rc = -99; std::string diag; std::string d0t, d0c; bool d0t_exists = false, d0c_exists = false; i64 crash_points = 0; std::string kill_violation; };
+struct RunResult { int rc = -99; std::string diag; std::string d0t, d0c; bool d0t_exists = false, d0c_exists = false; i64 crash_points = 0; std::string kill_violation;
+                   // the companion file as a kill at the first instant at which a complete event record is on the disk would leave it
+                   bool have_c_at_first_record = false; std::string c_at_first_record; i64 first_record_point = 0; };
 
 /// files left behind on the same basename by an earlier, complete run (empty strings: none)
 struct Stale { std::string d0t, d0c; bool any() const { return !d0c.empty(); } };
@@ -226,6 +228,9 @@ RunResult run_program(const std::vector<std::string> & tokens, const std::string
         rr.kill_violation = "kill point #" + std::to_string(fs::stats().crash_points - cp0) + ": the companion file carries '@status=0' (left by an earlier run on the same basename) while the event file has already been "
                             "changed by a run that is going to be refused (" + std::to_string(fs::get(t_path).size()) + " bytes left)";
       return;
+    }
+    if (!rr.have_c_at_first_record && (!stale || !stale->any()) && count_records(fs::get(t_path)) >= 1) {
+      rr.have_c_at_first_record = true; rr.c_at_first_record = fs::get(c_path); rr.first_record_point = fs::stats().crash_points - cp0;
     }
     if (has_marker(fs::get(c_path)) && fs::get(t_path) != *expect_d0t)
       rr.kill_violation = "kill point #" + std::to_string(fs::stats().crash_points - cp0) + ": .d0c already carries '@status=0' while .d0t holds "
@@ -397,10 +402,21 @@ Outcome run_run(const Plan & plan, const RunCtx & ctx)
       if (!has_marker(rr.d0c)) violation("marker-missing", "marker-missing " + clclass, "complete run without '@status=0' in the companion file");
       // companion file reports the effective settings
       auto kv = parse_kv(rr.d0c);
+      // ... at every kill point: once a complete event record is on the disk, a kill leaves a companion file that already
+      // reports every effective setting (evaluated on runs without a stale pair and without write faults only)
+      auto kv_kill = parse_kv(rr.c_at_first_record);
+      if (rr.have_c_at_first_record) out.ctr["kill_points_with_records_companion_checked"]++;
       auto expect_kv = [&](const std::string & k, const std::string & v) {
         auto it = kv.find(k);
         if (it == kv.end()) violation("companion-missing-key", "companion-missing-key " + k, "companion file lacks '" + k + "'");
         else if (it->second != v) violation("companion-wrong-value", "companion-wrong-value " + k, "companion file reports " + k + "=" + it->second + ", effective value " + v);
+        else if (rr.have_c_at_first_record) {
+          auto jt = kv_kill.find(k);
+          if (jt == kv_kill.end() || jt->second != v)
+            violation("settings-missing-at-kill-point", "settings-missing-at-kill-point",
+                      "kill point #" + std::to_string(rr.first_record_point) + ": the event file already holds a complete record but the companion file (" + std::to_string(rr.c_at_first_record.size())
+                          + " bytes) " + (jt == kv_kill.end() ? "lacks '" + k + "'" : "reports " + k + "=" + jt->second) + ", effective value " + v);
+        }
       };
       expect_kv("nuclide", s.nuc);
       expect_kv("seed", std::to_string(s.seed >= 0 ? s.seed : 314159));
